@@ -12,6 +12,9 @@ Tie to the source:
     states, the argument order of the adapter (<state>.run).  The same definitions are
     evaluated by the model inside Coq (RV.Defs.Corr.h_agree) and only disagreeing indices
     are printed.
+  * a class body may bind an EXISTING state object again ("m": "ref"):  again = work  (the
+    object the class namespace holds at that line) or  retry = C0.work  (the object an earlier
+    class holds): __set_name__ must judge every binding, not only the first one of an object.
 """
 import itertools
 import json
@@ -137,6 +140,23 @@ def render_func(e, indent):
     return lines
 
 
+def render_src(src):
+    """Right-hand side of a second binding: ["local", key] is the name itself (looked up in the
+    class namespace), ["class", c, key] is C<c>.__dict__[key], written C<c>.key when that is
+    the same object (key is an ordinary identifier that no metaclass attribute shadows)."""
+    if src[0] == "local":
+        return src[1]
+    key = src[2]
+    if key.isidentifier() and not key.startswith("__") and not src_shadowed(key):
+        return "C%d.%s" % (src[1], key)
+    return "C%d.__dict__[%r]" % (src[1], key)
+
+
+def src_shadowed(key):
+    sm, _ = impl()
+    return is_reserved(sm, key)
+
+
 def render_class(i, c):
     """Source of class statement i (with the factories its body needs)."""
     pre, body = [], []
@@ -153,6 +173,8 @@ def render_class(i, c):
                 pre += render_func(e, 4)
                 pre.append("    return %s" % e["fname"])
                 body.append("    %s = %s" % (e["attr"], apply_deco(e["deco"], fac + "()")))
+        elif e["m"] == "ref":
+            body.append("    %s = %s" % (e["attr"], render_src(e["src"])))
         elif e["m"] == "method":
             body.append("    def %s(self):" % e["attr"])
             body.append("        return None")
@@ -290,21 +312,41 @@ def oracle(spec, obs):
     finals = []
     for i, c in enumerate(spec["classes"]):
         faults = []
-        final = {}
+        final = {}          # attribute -> the entry that created the object bound there
+        unbound = None
         for e in c["body"]:
             if e["m"] == "state":
                 if is_reserved(sm, e["fname"]):
                     faults.append("state name %s is an attribute of StateMachine" % e["fname"])
                 faults += sig_faults(e["params"])
-            final[spec_attr(i, e)] = e
-        for k, e in final.items():
-            if e["m"] == "state":
-                if k != e["fname"]:
-                    faults.append("state %s bound as attribute %s" % (e["fname"], k))
-                if not flags[i]:
-                    faults.append("state %s defined outside a StateMachine" % e["fname"])
-        finals.append(final)
+                if faults:
+                    break           # the decorator raises here, nothing below it is executed
+            tgt = e
+            if e["m"] == "ref":     # a second binding of an object that exists already
+                src = e["src"]
+                if src[0] == "local":
+                    tgt = final.get(src[1])
+                else:
+                    tgt = finals[src[1]].get(src[2]) if src[1] < len(finals) else None
+                    if tgt is None and src[1] < len(obs["extras"]) and src[2] in obs["extras"][src[1]]:
+                        tgt = {"m": "other"}
+                if tgt is None:
+                    unbound = render_src(src)
+                    break
+            final[spec_attr(i, e)] = tgt
         de = obs["def_err"]
+        if unbound is not None and not faults:
+            # the body reads a name that is not bound (NameError / KeyError): the property
+            # says nothing about such a module
+            return None
+        if not faults:
+            for k, e in final.items():
+                if e["m"] == "state":
+                    if k != e["fname"]:
+                        faults.append("state %s bound as attribute %s" % (e["fname"], k))
+                    if not flags[i]:
+                        faults.append("state %s bound in C%d which is not a StateMachine" % (e["fname"], i))
+        finals.append(final)
         if faults:
             if de is None or de[0] > i:
                 return ("c12-malformed-definition-accepted",
@@ -381,6 +423,14 @@ def st(fname, params=None, deco=None, doc=None, attr=None, form="def"):
 
 def other(attr, m="method"):
     return {"attr": attr, "m": m}
+
+
+def ref_local(attr, key):
+    return {"attr": attr, "m": "ref", "src": ["local", key]}
+
+
+def ref_class(attr, c, key):
+    return {"attr": attr, "m": "ref", "src": ["class", c, key]}
 
 
 def one_class(body, bases=("SM",)):
@@ -483,7 +533,111 @@ def gen_fixed(sm, ctx):
         {"bases": [0], "body": [st("m")]},
         {"bases": [0], "body": [st("n"), st("a", deco=FIRST, doc="C2.a")]},
         {"bases": [1, 2], "body": [st("z_duration"), st("k", deco=["default"])]}]}))
+    cases += gen_rebinding_fixed()
     return cases
+
+
+WORK_KINDS = [["state", False, False], ["state", True, False], ["timed", False, False, "2.0"],
+              ["timed", True, True, "0.5"], ["default"]]
+
+
+def gen_rebinding_fixed():
+    """An existing state object bound a second time: in the same body, by a derived class, by
+    an unrelated machine, by a plain class; under a new name (rejected), under its own name
+    (accepted in a StateMachine), and rebound afterwards."""
+    cases = []
+
+    def add(spec):
+        cases.append(("rebinding", spec))
+    for wk in WORK_KINDS:
+        is_first = wk[0] != "default" and wk[1]
+        begin = [] if is_first else [st("begin", deco=FIRST)]
+        work = lambda form="assign": st("work", params=[["self", "PosOrKw", False], ["tm", "PosOrKw", False]],
+                                        deco=list(wk), doc="does the work", form=form)
+        for form in ("def", "assign"):
+            # second name in the same body, after the proper definition
+            add(one_class(begin + [work(form), ref_local("again", "work")]))
+            # .. the second name has its place in the namespace BEFORE the state
+            add(one_class(begin + [other("again", "value"), work(form), ref_local("again", "work")]))
+            # .. a second name that is rebound to something else afterwards (accepted)
+            add(one_class(begin + [work(form), ref_local("tmp", "work"), other("tmp", "value")]))
+            # .. a chain of names
+            add(one_class(begin + [work(form), ref_local("w2", "work"), ref_local("w3", "w2")]))
+            # .. the state is moved: own name rebound to a non-state, alias stays
+            add(one_class(begin + [work(form), ref_local("w2", "work"), other("work", "method")]))
+            # .. same name again (a no-op rebinding, accepted)
+            add(one_class(begin + [work(form), other("x", "value"), ref_local("work", "work")]))
+        base = {"bases": ["SM"], "body": begin + [work()]}
+        for bases in ([0], ["SM"], [0, "SM"]):
+            # a derived class / an unrelated machine binds the existing state under a new name
+            add({"classes": [base, {"bases": bases, "body": [ref_class("retry", 0, "work")]}]})
+            add({"classes": [base, {"bases": bases, "body": [st("start", deco=["state", False, False], doc="starts"),
+                                                             ref_class("retry", 0, "work"), st("end")]}]})
+            # .. under its own name (legal)
+            add({"classes": [base, {"bases": bases, "body": [st("start", deco=["state", False, False], doc="starts"),
+                                                             ref_class("work", 0, "work")]}]})
+            # .. under a new name that is rebound afterwards (legal)
+            add({"classes": [base, {"bases": bases, "body": [ref_class("retry", 0, "work"), other("retry", "method")]}]})
+        # the state of a machine reused in a class that is no StateMachine
+        add({"classes": [base, {"bases": [], "body": [ref_class("work", 0, "work")]}]})
+        add({"classes": [base, {"bases": [], "body": [ref_class("helper", 0, "work")]}]})
+        add({"classes": [base, {"bases": [], "body": [other("x", "value"), ref_class("work", 0, "work"), other("y")]}]})
+        add({"classes": [base, {"bases": [], "body": [ref_class("work", 0, "work"), other("work", "value")]}]})
+        # .. picked up through a plain mix-in that was rejected is never reached; through a derived machine:
+        add({"classes": [base, {"bases": [0], "body": [ref_class("work", 0, "work")]},
+                         {"bases": [1], "body": [ref_class("again", 1, "work")]}]})
+        add({"classes": [base, {"bases": [0], "body": [ref_class("work", 0, "work")]},
+                         {"bases": ["SM"], "body": [st("go", deco=["state", False, False]), ref_class("work", 1, "work")]}]})
+    # a non-state picked up again, and names that are not bound
+    cases.append(("rebinding", one_class([st("a", deco=FIRST), other("v", "value"), ref_local("w", "v")])))
+    cases.append(("rebinding", {"classes": [{"bases": ["SM"], "body": [st("a", deco=FIRST), other("m")]},
+                                            {"bases": [], "body": [ref_class("n", 0, "m")]}]}))
+    cases.append(("rebinding", {"classes": [{"bases": ["SM"], "body": [st("a", deco=["timed", True, False, "1.0"])]},
+                                            {"bases": [0], "body": [ref_class("d", 0, "a_duration")]}]}))
+    cases.append(("unbound", one_class([st("a", deco=FIRST), ref_local("w", "nosuch")])))
+    cases.append(("unbound", one_class([ref_local("w", "a"), st("a", deco=FIRST)])))
+    cases.append(("unbound", {"classes": [{"bases": ["SM"], "body": [st("a", deco=FIRST)]},
+                                          {"bases": [0], "body": [ref_class("w", 0, "nosuch")]}]}))
+    cases.append(("unbound", one_class([st("a", params=[["tm", "PosOrKw", False]], deco=FIRST), ref_local("w", "nosuch")])))
+    cases.append(("unbound", one_class([ref_local("w", "nosuch"), st("a", params=[["tm", "PosOrKw", False]], deco=FIRST)])))
+    return cases
+
+
+def add_rebinding(rng, spec):
+    """Insert 1-2 second bindings of objects that exist at that point into a generated
+    hierarchy.  Returns the tag of what was inserted (or None)."""
+    classes = spec["classes"]
+    tag = None
+    for _ in range(rng.choice([1, 1, 2])):
+        i = rng.randrange(len(classes))
+        body = classes[i]["body"]
+        pos = rng.randrange(len(body) + 1)
+        srcs = [["local", spec_attr(i, e)] for e in body[:pos]]
+        for c in range(i):
+            srcs += [["class", c, spec_attr(c, e)] for e in classes[c]["body"]]
+        srcs = [x for x in srcs if not x[-1].startswith("_C")]
+        if not srcs:
+            continue
+        # prefer picking up a state
+        def is_state(x):
+            b = classes[i]["body"][:pos] if x[0] == "local" else classes[x[1]]["body"]
+            j = i if x[0] == "local" else x[1]
+            return any(e["m"] == "state" and spec_attr(j, e) == x[-1] for e in b)
+        st_srcs = [x for x in srcs if is_state(x)]
+        src = rng.choice(st_srcs) if st_srcs and rng.random() < 0.8 else rng.choice(srcs)
+        r = rng.random()
+        if r < 0.45:
+            attr, how = src[-1], "same"
+        elif r < 0.8:
+            attr, how = rng.choice([src[-1] + "_again", "retry", "helper", "s9"]), "new"
+        else:
+            attr, how = rng.choice(STATE_POOL), "pool"
+        body.insert(pos, {"attr": attr, "m": "ref", "src": src})
+        if how != "same" and rng.random() < 0.2:        # .. and rebound below
+            body.insert(rng.randrange(pos + 1, len(body) + 1), other(attr, rng.choice(["method", "value"])))
+            how += "+rebound"
+        tag = "rebind:%s:%s" % (src[0], how)
+    return tag
 
 
 SHAPES = {
@@ -645,6 +799,10 @@ def gen_cases(sm, ctx):
     total = 40000 if thorough else 3000
     while len(cases) < total:
         tags, c = gen_hier(r)
+        if r.random() < 0.2:
+            t = add_rebinding(r, c)
+            if t:
+                tags = tags + [t]
         cases.append((["hier"] + tags, c))
     return cases
 
@@ -666,6 +824,11 @@ def coq_deco(d):
 
 def coq_entry(i, e):
     k = coq_string(spec_attr(i, e))
+    if e["m"] == "ref":
+        src = e["src"]
+        if src[0] == "local":
+            return "(%s, SLocal %s)" % (k, coq_string(src[1]))
+        return "(%s, SRef %d %s)" % (k, src[1], coq_string(src[2]))
     if e["m"] != "state":
         return "(%s, SOther)" % k
     doc = "None" if e.get("doc") is None else "(Some %s)" % coq_string(e["doc"])
@@ -711,7 +874,8 @@ HEADER = ("From Coq Require Import List String.\nFrom RV Require Import Defs.Mod
 def printable(spec):
     for c in spec["classes"]:
         for e in c["body"]:
-            for s in [e["attr"], e.get("fname", ""), e.get("doc") or ""] + [p[0] for p in e.get("params", [])]:
+            for s in [e["attr"], e.get("fname", ""), e.get("doc") or "", str(e.get("src", [""])[-1])] + \
+                    [p[0] for p in e.get("params", [])]:
                 if '"' in s or "\\" in s or not all(32 <= ord(ch) < 127 for ch in s):
                     return False
     return True
@@ -859,7 +1023,8 @@ Print Assumptions impl_reserved_rejected.
         "rule": "class definitions generated as source text: every reserved name x 3 decorators, near-miss names, "
                 "all 16 legal ordered parameter subsets, kind x position<=3 x 6 names, all signatures of length <=2 "
                 "(<=3 in thorough) over 5 kinds x 6 names, random hierarchies of 1-4 classes (single/linear/diamond/"
-                "mix-in/plain mix-in) with overriding state-by-state, by plain method/value and back; non-trivial = "
+                "mix-in/plain mix-in) with overriding state-by-state, by plain method/value and back; second bindings "
+                "of existing state objects (same body, derived class, other machine, plain class; own/new name); non-trivial = "
                 "distinct definitions that are rejected somewhere or override an inherited attribute",
         "exhaustive": False,
         "exhaustive_parts": ["reserved names (%d) x 3 decorators" % len(res), "16 legal ordered parameter subsets",
@@ -880,6 +1045,8 @@ Print Assumptions impl_reserved_rejected.
         r = ctx.rng
         for _ in range(30000):
             tags, spec = gen_hier(r)
+            if r.random() < 0.3:
+                add_rebinding(r, spec)
             v = oracle(spec, run_case(spec))
             if v is not None:
                 small = shrink(spec, v[0])
